@@ -202,10 +202,10 @@ impl ChanRun {
 
 /// Holds a value whose destructor must not run while the thread is being unwound by an aborted run
 /// (the channel may be in a state -- a spin lock held by a thread that no longer exists -- the destructor cannot cope with)
-struct LeakOnUnwind<T>(Option<T>);
+pub(crate) struct LeakOnUnwind<T>(Option<T>);
 impl<T> LeakOnUnwind<T> {
-    fn new(v: T) -> Self { LeakOnUnwind(Some(v)) }
-    fn take(mut self) -> T { self.0.take().unwrap() }
+    pub(crate) fn new(v: T) -> Self { LeakOnUnwind(Some(v)) }
+    pub(crate) fn take(mut self) -> T { self.0.take().unwrap() }
 }
 impl<T> std::ops::Deref for LeakOnUnwind<T> { type Target = T; fn deref(&self) -> &T { self.0.as_ref().unwrap() } }
 impl<T> std::ops::DerefMut for LeakOnUnwind<T> { fn deref_mut(&mut self) -> &mut T { self.0.as_mut().unwrap() } }
